@@ -17,8 +17,10 @@ def showState (c : Cache) : List String :=
   [s!"P count={c.table.count}",
    "P order " ++ joinOrDash (c.table.entries.map (fun e => s!"{e.1.ident}.{e.1.ptr}={e.2}"))]
 
+/-- value 0 is the NULL value pointer: a lookup that finds it reports NULL, like a miss -/
 def showVal : Option Nat → String
   | none => "NULL"
+  | some 0 => "NULL"
   | some v => toString v
 
 def sortStrs (l : List String) : List String := l.mergeSort (fun a b => !(b < a))
@@ -105,8 +107,13 @@ structure DS where
   impl : Option LhtImpl.State
   hm : Nat
 
+/-- identity 1000 stands for the NULL key: `s_hash_for` gives it 42 without calling the user's hash, and it is
+equal to itself only — exactly a key identity whose hash is 42 -/
+def nullIdent : Nat := 1000
+
 /-- the harness's `s_hash` per hash mode -/
 def hashFn (hm : Nat) (i : Nat) : Nat :=
+  if i = nullIdent then 42 else
   match hm with
   | 1 => 7
   | 2 => i % 2
